@@ -130,7 +130,10 @@ func c07Produce(q *BufferedChannelQueue[int], l *c07Log, p, n int, usePut bool) 
 
 // c07Drain: repeated Take/Poll calls without any further Offer retrieve everything that was accepted.
 func c07Drain(q *BufferedChannelQueue[int], l *c07Log, want int) {
-	how := vfChoose("how", 3) // one retrieval style per run
+	c07DrainHow(q, l, want, vfChoose("how", 3)) // one retrieval style per run
+}
+
+func c07DrainHow(q *BufferedChannelQueue[int], l *c07Log, want int, how int) {
 	for tries := 0; len(l.delivered) < want && tries < 4*want+4; tries++ {
 		var v int
 		var err error
@@ -216,6 +219,54 @@ func vh_C07_BufferedConcurrentConsumer() {
 	if capacity >= 1 {
 		c07Drain(q, l, len(l.accepted))
 		c07Check(l, true)
+	}
+	vfReach("end")
+}
+
+// one goroutine interleaves offers and removals (so the accepted order is the program order) while the loader runs
+// whenever the schedule lets it: a value accepted later must never overtake one still waiting in the overflow buffer
+func vh_C07_BufferedScript() {
+	vfSetMapOrder(2)
+	bufMax := vfRange("bufmax", 1, 1+vfTier())
+	q := NewBufferedChannelQueue[int](1, bufMax, 1)
+	l := &c07Log{}
+	next := 0
+	offer := func() {
+		err := q.Offer(next)
+		vfAssert("offer-error-is-full-or-nil", err == nil || err == ErrQueueIsFull)
+		l.accept(next, err)
+		next++
+	}
+	for i := 0; i < 1+bufMax; i++ {
+		offer() // fill the channel and the overflow buffer
+	}
+	vfAssert("filled", len(l.accepted) == 1+bufMax)
+	steps := 3 + vfTier()
+	for i := 0; i < steps; i++ {
+		switch vfChoose("op", 3) {
+		case 0:
+			offer()
+		case 1:
+			if v, err := q.Poll(); err == nil {
+				l.deliver(v)
+			} else {
+				vfAssert("poll-error-is-empty", err == ErrQueueIsEmpty)
+			}
+		default:
+			if v, err := q.TakeWithTimeout(150 * time.Millisecond); err == nil {
+				l.deliver(v)
+			}
+		}
+		vfAssert("bounded", len(l.accepted)-len(l.delivered) <= 1+bufMax)
+	}
+	c07DrainHow(q, l, len(l.accepted), 0)
+	c07Check(l, true)
+	// single producer: delivery order is exactly acceptance order
+	vfAssert("fifo", len(l.delivered) == len(l.accepted))
+	for i := range l.accepted {
+		if i < len(l.delivered) {
+			vfAssert("fifo", l.delivered[i] == l.accepted[i])
+		}
 	}
 	vfReach("end")
 }
